@@ -292,7 +292,28 @@ def _compare_all(out: Outcome, phase: str, tests: list[Any], ref: list[dict[str,
     the case counted inconclusive - never a violation.
     """
     skip: set[int] = set()
+    # The property quantifies over *deterministic* test cases.  A test whose observable result depends on object addresses
+    # (hash()/repr() of an object holding a function, e.g. the generated __hash__ of a frozen dataclass with a lambda field)
+    # differs between any two processes by construction: such tests are recognised statically and by executing the test a
+    # second time in-process, and are left out of the comparison (counted, never a verdict).
+    import re as _re
+
+    for i, t in enumerate(tests):
+        if expect_timeout[i]:
+            continue
+        if _re.search(r"\.__(hash|repr|str|format|sizeof|reduce|reduce_ex|dir|getstate)__\(", t.to_code()):
+            skip.add(i)
+            out.excluded += 1
+            out.labels.append("excluded:address-dependent-dunder-call")
+            continue
+        again = s.observe(executor.execute(t))
+        if not again["timeout"] and not ref[i]["timeout"] and _diff(ref[i], again, fields):
+            skip.add(i)
+            out.excluded += 1
+            out.labels.append("excluded:nondeterministic-in-process")
     for i, o in enumerate(ref):
+        if i in skip:
+            continue
         if o["timeout"] and not expect_timeout[i]:
             o2 = s.observe(executor.execute(tests[i]))
             if o2["timeout"]:
